@@ -216,6 +216,9 @@ class Termizer:
             return mk_op("max", args[0], args[1])
         if cn in ("int::wrapping_add",) and len(args) == 2:
             return mk_op("+", args[0], args[1])
+        # checked arithmetic that panics on overflow is the same value over ideal integers
+        if cn in ("Option::expect", "Option::unwrap") and args and args[0][0] == "call" and args[0][1] in ("int::checked_mul", "int::checked_add", "int::checked_sub") and len(args[0][2]) == 2:
+            return mk_op({"int::checked_mul": "*", "int::checked_add": "+", "int::checked_sub": "-"}[args[0][1]], args[0][2][0], args[0][2][1])
         if cn in ("slice::is_empty", "Vec::is_empty") and len(args) == 1:
             return ("isempty", args[0])
         if self.inline is not None:
